@@ -9,3 +9,15 @@ pub fn dumpfile(toks: &[&str]) -> String {
         _ => result_str(wellen::simple::read_from_reader(std::io::Cursor::new(std::fs::read(path).unwrap()))),
     }
 }
+
+/// `isfst <hex>`: fst_reader::is_fst_file on a Cursor and on a BufReader<File>
+pub fn isfst(toks: &[&str]) -> String {
+    use std::io::Write;
+    let bytes = crate::util::hex_bytes(toks[1]);
+    let path = crate::vcdcmd::tmp_dir().join("isfst.bin");
+    std::fs::File::create(&path).unwrap().write_all(&bytes).unwrap();
+    let a = fst_reader::is_fst_file(&mut std::io::Cursor::new(bytes.clone()));
+    let mut f = std::io::BufReader::new(std::fs::File::open(&path).unwrap());
+    let b = fst_reader::is_fst_file(&mut f);
+    format!("cursor={a} file={b}")
+}
